@@ -423,7 +423,19 @@ func rulePassByTypeOnly(p *Program, r *Report) {
 		}
 	}
 	if leafCb == nil {
-		r.Undecided("leaf-callback", "no closure of RunExpr appends a result", run.Pos())
+		// results collected some other way: a map keyed by something collapses leaves that share the key
+		for _, cl := range Closures(run) {
+			ForEachInstr(cl, func(ins ssa.Instruction) {
+				if mu, ok := ins.(*ssa.MapUpdate); ok && strings.HasSuffix(mu.Value.Type().String(), "test.Result") {
+					leafCb = cl
+					r.Fn(FnName(cl))
+					r.Viol("one-result-per-leaf", "the leaf callback stores its result in a map instead of appending it: two leaves that share the key (leaf paths are not unique — multi-valued dictionaries, quoted attribute names spelling a nested path) overwrite each other, so a false leaf can vanish from the report and from the exit status", mu.Pos())
+				}
+			})
+		}
+		if leafCb == nil {
+			r.Undecided("leaf-callback", "no closure of RunExpr appends a result", run.Pos())
+		}
 		return
 	}
 	r.Fn(FnName(leafCb))
